@@ -213,8 +213,19 @@ def _expression(expr):
         return _VAR[name]
 
     if isinstance(expr, blackbirdParser.ArrayIdxLabelContext):
+        name = expr.NAME().getText()
+        if name not in _VAR:
+            token = expr.start
+            line = token.line
+            col = token.column
+            raise BlackbirdSyntaxError(
+                "Blackbird SyntaxError (line {}:{}): name '{}' is not defined".format(
+                    line, col, name
+                )
+            )
+
         inner_expr = _expression(expr.expression())
-        return _VAR[expr.NAME().getText()].flatten()[inner_expr]
+        return _VAR[name].flatten()[inner_expr]
 
     if isinstance(expr, blackbirdParser.ParameterLabelContext):
         p = Symbol(expr.parameter().NAME().getText())
